@@ -19,14 +19,15 @@ prop(
          "files/rules with parse failures and symlinks, x a generated .pint.hcl whose rule{} blocks give info/warning/bug/fatal "
          "severities to annotation/label/for/keep_firing_for/name/aggregate/reject/report checks; two thirds of the configs add a "
          "'severity ladder': 2-3 rule{} blocks configuring the SAME check (same key/options/comment, so the same problem text) at "
-         "different severities, split by label value / kind / name / path or overlapping; groups carry 0-8 group-level labels, rules "
+         "different severities, split by label value / kind / name / path or overlapping; a fifth of the lint and ci inputs add a file with one physical line of 70-100 KiB (regexp alternation in an expr, a comment, an annotation) that always carries a Warning; groups carry 0-8 group-level labels, rules "
          "a `team: <rule name>` label checked against {{ $alert }}) is run 8-9 times: --fail-on in "
          "{absent, info, warning, bug, fatal} plus repeats at one threshold, each with independently drawn --min-severity, --show-duplicates, report files (--json, --checkstyle, both, neither; runs "
          "without a JSON of their own are judged against the JSON of another run of the same input), --no-color on/off, -l debug/warn/error, "
          "--workers; `pint ci` cases build a two-commit git repository (base branch + one change commit). "
          "Non-trivial: the run completed linting, its report holds >= 2 distinct severities and at least one severity strictly "
          "below the fail-on threshold. Runs that fail before linting completes (no decodable --json file: bad flag, config "
-         "error, crash) are discarded and counted.",
+         "error, crash) are discarded and counted - except a `pint ci` run that dies before any check ran for a reason that is neither "
+         "configuration, flags nor an empty file set while `pint lint *` completes on the same tree: that is a violation.",
     level_text="Generated-input search against an executable reference: for every completed run, exit != 0 iff the run's own "
                "--json report lists a problem at or above the threshold; across runs of one input the status must not move with "
                "--min-severity / --show-duplicates / --workers and must be monotone in --fail-on. Held on N invocations; no proof "
